@@ -49,6 +49,7 @@ class World:
         self.version = 0
         self.counter = 0
         self.plan_dirty = False
+        self.dirty = set()  # labels of steps one of whose inputs changed since they last ran (a hash check fails for them)
         self.s_on_disk = True  # whether the source s.txt exists on the (imagined) disk
 
     # ----- helpers
@@ -185,6 +186,17 @@ class World:
             a = wf.find(Step, "A")
             wf.amend_step(a, out_paths=["o.txt"], ran_concurrently=lambda x, y: False)
 
+    def consumers_of(self, path):
+        """Labels of the steps that have the file as an input (to be called inside a transaction)."""
+        return {l for (l,) in self.db.execute(
+            "SELECT snode.label FROM node AS fnode JOIN dependency ON dependency.source = fnode.i "
+            "JOIN node AS snode ON snode.i = dependency.sink WHERE fnode.kind = 'file' AND fnode.label = ? "
+            "AND snode.kind = 'step'", (path,))}
+
+    def script_for(self, label):
+        """The declarations a step makes when it runs (a plan-like step), or None."""
+        return self.plan_script if label == "./plan.py" else None
+
     # ----- operations
 
     async def boot(self):
@@ -218,7 +230,8 @@ class World:
                 return
             step = job.step
             checking = await self.read(step.get_state) == E.StepState.CHECKING
-            if checking and step.label == "./plan.py" and self.plan_dirty and name in ("run", "fail"):
+            stale = (step.label == "./plan.py" and self.plan_dirty) or step.label in self.dirty
+            if checking and stale and name in ("run", "fail"):
                 # the executor finds the input digest changed (plan.py was edited): reset, then the step runs
                 def reset0():
                     step.reset_for_rerun()
@@ -250,13 +263,16 @@ class World:
                 await self.tx(reset2)
                 return
             await self.tx(step.reset_for_rerun)
+            self.dirty.discard(step.label)
             ok = name == "run"
-            if step.label == "./plan.py":
-                self.plan_dirty = False
+            script = self.script_for(step.label)
+            if script is not None:
+                if step.label == "./plan.py":
+                    self.plan_dirty = False
                 # each RPC request of the script is a transaction of its own; a rejected one fails the step
                 try:
                     async with self.db:
-                        self.plan_script(step)
+                        script(step)
                 except m["exceptions"].GraphError:
                     ok = False
                 except (m["exceptions"].ConsistencyError, AssertionError) as e:
@@ -290,6 +306,7 @@ class World:
             key = (Cause.EXTERNAL, st, known)
             if st is not None and key in m["workflow"]._HASH_TRANSITIONS:
                 h = self.fh(path) if known else m["hash"].FileHash.unknown()
+                self.dirty |= await self.read(lambda: self.consumers_of(path))
                 await self.tx(lambda: wf.update_file_hashes({path: h}, cause=Cause.EXTERNAL))
         elif name == "confirm":
             def confirm():
